@@ -1,6 +1,9 @@
 package main
 
 import (
+	"encoding/json"
+	"os"
+	"path/filepath"
 	"fmt"
 	"go/token"
 	"go/types"
@@ -46,6 +49,12 @@ func (x *Exec) initState(suffix string) *State {
 		f.regs[p] = v
 		x.params[name] = v
 		x.inputs[name] = v
+		if old := baselineParamName(fnName(x.fn), i); old != "" && old != name {
+			if _, clash := x.params[old]; !clash {
+				x.params[old] = v
+				x.note("parameter " + old + " of " + fnName(x.fn) + " was renamed to " + name + "; contracts keep using the baseline name")
+			}
+		}
 		if x.fn.Signature.Recv() != nil && i == 0 {
 			x.params["this"] = v
 			if isPointerLike(p.Type()) {
@@ -1105,4 +1114,20 @@ func (x *Exec) tryMerge(s *State, f *Frame, c string) bool {
 	}
 	f.idx = len(phis)
 	return true
+}
+
+var baselineParams map[string][]string
+
+func baselineParamName(fn string, i int) string {
+	if baselineParams == nil {
+		baselineParams = map[string][]string{}
+		if b, err := os.ReadFile(filepath.Join(verifDir, "baseline_params.json")); err == nil {
+			json.Unmarshal(b, &baselineParams)
+		}
+	}
+	ns := baselineParams[fn]
+	if i < len(ns) {
+		return ns[i]
+	}
+	return ""
 }
